@@ -739,6 +739,8 @@ class Interp:
         site = frame.site("loop", st)
         spec = self.loop_specs.get(site)
         if spec is not None:
+            if hasattr(spec, "sequence"):
+                raise Unsupported(f"the loop contract registered for {site} describes a `for` loop, the code now has a `while` loop there (loop restructured: the contract does not apply)")
             return self._loop_with_invariant(st, frame, spec, site)
         n = 0
         while True:
@@ -762,6 +764,8 @@ class Interp:
         spec = self.loop_specs.get(site)
         it = self.eval(st.iter, frame)
         if spec is not None:
+            if not hasattr(spec, "sequence"):
+                raise Unsupported(f"the loop contract registered for {site} describes a `while` loop, the code now has a `for` loop there (loop restructured: the contract does not apply)")
             return self._for_with_invariant(st, frame, spec, site, it)
         items = npmodel.iterate(self, it, site)
         for x in items:
